@@ -50,7 +50,9 @@ def make_case(index, rng, tier):
         tc += rng.uniform(0.2, 0.9)
     real = rng.choice([None, None, None, "sync", "gthread", "gevent", "eventlet"])
     exec_fail = rng.choice([None] * 5 + ["ENOENT", "EACCES"])      # the new binary cannot be executed (first USR2 only)
+    new_boot_fail = rng.choice([None] * 6 + ["exit3", "exit4"]) if real is None and exec_fail is None else None
     return {"events": evs, "clients": clients, "unix": rng.randrange(2) == 0, "workers": rng.randrange(1, 3), "real": real, "exec_fail": exec_fail,
+            "new_boot_fail": new_boot_fail,
             "graceful_timeout": rng.choice([1, 2]), "daemon": rng.randrange(3) == 0, "pidfile": rng.randrange(4) != 0,
             "buggify": {"pyticks": rng.randrange(3) == 0, "fork_child_first": rng.randrange(2) == 0, "spurious_select": rng.randrange(3) == 0,
                         "random_spawn_delay": rng.randrange(2) == 0}}
@@ -94,6 +96,12 @@ def run(case, choices):
         sim.sys_fail = sys_fail
     m0 = w.start_master()
     masters = [m0]               # process objects of every master generation, in creation order
+    if case.get("new_boot_fail"):
+        # the release the server is upgraded to cannot boot its workers: the new master halts (exit status 3 / 4) - a failed upgrade, after
+        # which the old master must simply carry on
+        w.boot_fail_kind = case["new_boot_fail"]
+        w.boot_fail_under = lambda wp: wp.ppid != m0.pid
+        sim.probe("new_release_cannot_boot")
     state = {"stopping": {}, "exits": {}, "reexec_forks": [], "refused": [], "node_missing": [], "new_booted": {}}
 
     def running_masters():
@@ -242,6 +250,8 @@ def run(case, choices):
             if mp.state == "running":
                 continue
             asked = [k for (t_, k) in state.get("sent", {}).get(mp.pid, []) if k.startswith(("term", "quit", "kill"))]
+            if mp is not m0 and case.get("new_boot_fail"):
+                continue          # it halted because its workers cannot boot (C03's clause); what matters here is that the OLD one goes on
             if not asked:
                 hist = [k for (t_, k) in state.get("sent", {}).get(mp.pid, [])]
                 res.violate("C14:master-exited-unasked:%s" % ("new" if mp is not m0 else "old"),
